@@ -20,7 +20,7 @@ META = dict(
          "against the same predicates (lead only). The "
          "caller's result class and the Commit/Rollback calls that reached the database driver are compared with "
          "the specification. spec/RowMap.tla enumerates destination shapes (scalars, structs of 1-3 fields, "
-         "tagged/untagged, pointer fields, embedded value/pointer structs holding 1 or 2 of the leaf fields, *T, *[]T, *[]*T) x result sets (all "
+         "tagged/untagged, pointer fields, embedded value/pointer structs holding 1 or 2 of the leaf fields, *T, *[]T, *[]*T, slices already holding 0-2 elements) x result sets (all "
          "column orders of all column subsets, an extra column, NULL, 0/1/3 rows) x strict/partial with the SET of "
          "outcomes the statement allows; every case is executed by QueryRow(s)(Partial) through a Conn, a "
          "transaction session, a prepared statement and sqlc's NoCache pass-through.",
@@ -29,7 +29,7 @@ META = dict(
          "tripping (fresh Conn per behaviour, <= 4 calls), bulk inserter, sqlc's cached query paths. The statement "
          "is silent on (so both outcomes are allowed or the case is not generated): result error text when the "
          "Rollback itself fails, NULL arriving in a field (error or zero), tagged fields inside an embedded struct "
-         "(by name or by position), untagged structs with more columns than fields (not generated), scalar "
+         "(by name or by position), untagged structs with more columns than fields (not generated), whether a non-empty destination slice is appended to or replaced (both allowed), scalar "
          "destinations with several columns (not generated).",
     technique="TLA+ specs (Tx, RowMap) + TLC-enumerated behaviours/cases replayed on the real sqlx over sqlmock",
     design="4/C11")
@@ -41,7 +41,7 @@ FINISH = dict(rule="transactions: complete TLC enumeration (BFS over the history
 
 TX_INV = ["TypeOK", "NilMeansCommitted", "ElseRolledBack", "CommitIffNil", "OneEnding", "NoDangling", "NoTxNoEnd",
           "BegunIsEnded", "FailureIsReported"]
-ROW_INV = ["OrderIndependent", "ExtraIgnored", "StrictNeverPartial", "StrictCountsLeafFields", "EmptyIsNotFound",
+ROW_INV = ["OrderIndependent", "ExtraIgnored", "StrictNeverPartial", "StrictCountsLeafFields", "PrefilledSameVerdict", "EmptyIsNotFound",
            "FieldsComeFromTheirColumns", "NeverEmpty"]
 IMPL_INV = ["NilMeansCommitted", "ElseRolledBack", "FailureIsReported", "NoDangling", "OneEnding"]
 CTX = dict(Ctxs='{"live","cancelled","expired","bodycancel"}', CtxApis='{"TransactCtx","CachedTransactCtx"}')
@@ -77,8 +77,8 @@ def tx_gen(ctx, name, simulate=None, **K):
 
 def row_consts(ctx, thorough_part=None):
     if ctx.quick:
-        return dict(MaxF=3, RowCounts="{0,1,3}", PtrSets='"few"', Dests='{"one","vals","ptrs"}')
-    return dict(MaxF=3, RowCounts="{0,1,2,3}", PtrSets='"all"', Dests='{"one","vals","ptrs"}')
+        return dict(MaxF=3, RowCounts="{0,1,3}", PtrSets='"few"', Dests='{"one","vals","ptrs"}', Pres="{0,1}")
+    return dict(MaxF=3, RowCounts="{0,1,2,3}", PtrSets='"all"', Dests='{"one","vals","ptrs"}', Pres="{0,1,2}")
 
 
 def run(ctx):
@@ -113,6 +113,8 @@ def run(ctx):
     path, n = ctx.write_cases("rowmap.ndjson", cases)
     ctx.samples += core.sample_of(cases, 2)
     cnt, _ = ctx.replay(PKG, OVERLAY, RUN, path, label="rowmap", shards=16, binp=binp)
+    if not cnt.get("rowmap.prefilled"):
+        raise core.Infra("vacuous: no query into an already filled slice was replayed")
     if not cnt.get("rowmap.strict-fewer-than-leaf-fields"):
         raise core.Infra("vacuous: no strict case with fewer columns than leaf fields of an embedded struct was replayed")
     for k in ("ctx-cancelled", "ctx-expired", "ctx-bodycancel"):
